@@ -188,10 +188,13 @@ class ResourceAnalysis:
             dom = ResDomain(v); ex = Exec(self.facts, dom)
             paths = ex.run(f, args=None)
             used = tuple(sorted(dom.consulted))
-            sig = tuple((k, v[k]) for k in used)
+            # rows that differ only in atoms the code never looked at take the same path, but the specification may still
+            # distinguish them (a guard that forgot to look at the queue): keep QE / op / t in every row
+            keep = set(used) | {'QE', 'op', 't'}
+            sig = tuple((k, v[k]) for k in sorted(keep) if k in v)
             if sig in seen: continue
             seen[sig] = True
-            row = show(v, [k for k in ('QE', 'op', 't', 'back', 'front', 'next0') if k in used])
+            row = show(v, [k for k in ('QE', 'op', 't', 'back', 'front', 'next0') if k in keep])
             for P in paths:
                 if P.unknown_atoms:
                     c = P.unknown_atoms[0]
